@@ -216,6 +216,14 @@ func (e *Engine) VerifyFunc(name string) (*UnitResult, error) {
 		args = append(args, v)
 		names[p.Name()] = SV{V: v, Typ: p.Type()}
 	}
+	for oldN, newN := range u.aliasesOf(fn) {
+		if sv, ok := names[newN]; ok {
+			if _, taken := names[oldN]; !taken {
+				names[oldN] = sv
+				u.note("contract identifier " + oldN + " rebound to renamed parameter " + newN + " of " + name)
+			}
+		}
+	}
 	var binds []Value
 	for _, fv := range fn.FreeVars {
 		et := fv.Type().(*types.Pointer).Elem()
@@ -713,4 +721,28 @@ func splitGoal(g T) []T {
 		}
 	}
 	return []T{g}
+}
+
+
+// aliasesOf: rename aliases (old name -> new name) of a function of the package under verification.
+func (u *Unit) aliasesOf(fn *ssa.Function) map[string]string {
+	if fn == nil {
+		return nil
+	}
+	if u.aliasCache == nil {
+		u.aliasCache = map[*ssa.Function]map[string]string{}
+	}
+	if a, ok := u.aliasCache[fn]; ok {
+		return a
+	}
+	a := renameAliases(u.eng.dirRel(), relName(fn), fn)
+	u.aliasCache[fn] = a
+	return a
+}
+
+func (e *Engine) dirRel() string {
+	if r, err := filepath.Rel(repoRoot, e.dir); err == nil {
+		return r
+	}
+	return e.dir
 }
